@@ -1695,12 +1695,15 @@ impl VirtualFileSystem for Memfs {
     /// assert_eq!(vfs.mode(&file).unwrap(), 0o100555);
     /// ```
     fn mkfile_m<T: AsRef<Path>>(&self, path: T, mode: u32) -> RvResult<PathBuf> {
-        let path = {
-            let mut guard = self.write_guard();
-            let path = self._abs(&guard, path)?;
-            self._add(&mut guard, MemfsEntry::opts(path).file().build())?
-        };
-        self.chmod(&path, mode)?;
+        let mut guard = self.write_guard();
+        let path = self._abs(&guard, path)?;
+        let path = self._add(&mut guard, MemfsEntry::opts(path).file().build())?;
+
+        // Set the mode of the new or already existing file in the same step, a mode without any
+        // permission bit is taken as it is, same as the real filesystem
+        if let Some(entry) = guard.get_entry_mut(&path) {
+            entry.set_mode(Some(mode));
+        }
         Ok(path)
     }
 
